@@ -1,5 +1,6 @@
 """C16 - version comparison is a total order that agrees with PEP 440."""
 import random
+import re
 import itertools
 from .. import tlc, drive, glue
 from ..core import Machinery
@@ -48,6 +49,8 @@ def spell(rng, epoch, rel, pre, post, dev, local, canonical=False):
         loc = local
         if rng.random() < 0.4:
             loc = loc.replace(".", rng.choice(["-", "_", "."]))
+        if rng.random() < 0.3:
+            loc = re.sub(r"(^|[.\-_])([0-9]+)($|[.\-_])", lambda m: m.group(1) + "00" + m.group(2) + m.group(3), loc)       # +007: a numeric part is a number (canonical +7)
         s += "+" + (loc.upper() if rng.random() < 0.15 else loc)
     if rng.random() < 0.1:
         s = rng.choice([" ", "\t", ""]) + s + rng.choice([" ", "\n", ""])
